@@ -104,3 +104,171 @@ func init() {
 		unsignedSubRule(c, r, "C13.12", pre("hdf5.DatasetWriter.writeChunk", "hdf5.DatasetWriter.Resize", "hdf5.expandEdgeChunk", "writer.ChunkCoordinator.", "writer.NewChunkCoordinator", "structures.ChunkBTree"))
 	})
 }
+
+// ---- the end-of-file address is patched where it was written (C10.15 / C05.17) ----
+//
+// Superblock.UpdateEndOfFileAddress rewrites the end-of-file field of an existing superblock in place. For each version it
+// computes the position from the offset size; the superblock writers put the field at a constant position (they write
+// 8-byte offsets only). Under OffsetSize = 8 the position computed for version v is the position at which the writer for
+// version v stores its eofAddress parameter.
+func eofPatchPositionRule(c *Ctx, r *Result, rule string) {
+	upd := c.FnOpt("core.Superblock.UpdateEndOfFileAddress")
+	if upd == nil {
+		r.Shortfall(c, rule, rule+": core.Superblock.UpdateEndOfFileAddress not found")
+		return
+	}
+	writers := map[int64]string{0: "core.Superblock.writeV0", 2: "core.Superblock.writeV2", 3: "core.Superblock.writeV2"}
+	// writer side: the constant offset at which the eofAddress parameter is stored
+	wpos := map[string]int64{}
+	for _, wn := range []string{"core.Superblock.writeV0", "core.Superblock.writeV2"} {
+		w := c.FnOpt(wn)
+		if w == nil {
+			continue
+		}
+		var eofParam *ssa.Parameter
+		for _, p := range w.Params {
+			if strings.EqualFold(p.Name(), "eofAddress") {
+				eofParam = p
+			}
+		}
+		if eofParam == nil {
+			continue
+		}
+		fb := c.FB(w)
+		for _, site := range callsIn(w) {
+			com := site.Common()
+			name := ""
+			if com.IsInvoke() {
+				name = com.Method.Name()
+			} else if f := com.StaticCallee(); f != nil {
+				name = f.Name()
+			}
+			if !strings.HasPrefix(name, "PutUint") || len(com.Args) < 2 || stripConv(com.Args[len(com.Args)-1]) != ssa.Value(eofParam) {
+				continue
+			}
+			if sl, ok := com.Args[len(com.Args)-2].(*ssa.Slice); ok && sl.Low != nil {
+				if l := fb.lin(sl.Low); l.isConst() {
+					wpos[wn] = l.C
+				}
+			}
+		}
+	}
+	// update side: the position phi and its value per version arm
+	var eofParam *ssa.Parameter
+	for _, p := range upd.Params {
+		if strings.EqualFold(p.Name(), "eofAddress") {
+			eofParam = p
+		}
+	}
+	fb := c.FB(upd)
+	var pos ssa.Value
+	for _, site := range callsIn(upd) {
+		com := site.Common()
+		name := ""
+		if com.IsInvoke() {
+			name = com.Method.Name()
+		}
+		if name == "PutUint64" && len(com.Args) == 2 && eofParam != nil && stripConv(com.Args[1]) == ssa.Value(eofParam) {
+			if sl, ok := com.Args[0].(*ssa.Slice); ok && sl.Low != nil {
+				pos = sl.Low
+			}
+		}
+	}
+	phi, isPhi := pos.(*ssa.Phi)
+	if !isPhi {
+		r.Undec(rule, "core.Superblock.UpdateEndOfFileAddress#patch-position", c.Pos(upd.Pos()), "the position of the patched field is not a per-version value")
+		return
+	}
+	at8 := func(v ssa.Value) (int64, bool) {
+		l := fb.lin(v)
+		out := l.C
+		for k, coef := range l.T {
+			sv, ok := k.(ssa.Value)
+			if !ok {
+				return 0, false
+			}
+			if key, _ := fieldLoadKey(stripConv(sv)); !strings.HasSuffix(key, ".OffsetSize") {
+				return 0, false
+			}
+			out += coef * 8
+		}
+		return out, true
+	}
+	n := 0
+	for i, pred := range phi.Block().Preds {
+		v, ok := at8(phi.Edges[i])
+		if !ok {
+			continue
+		}
+		// which versions lead to this arm?
+		arm := pred
+		for _, b := range upd.Blocks {
+			ifi, isIf := b.Instrs[len(b.Instrs)-1].(*ssa.If)
+			if !isIf {
+				continue
+			}
+			bo, isBO := ifi.Cond.(*ssa.BinOp)
+			if !isBO || bo.Op != token.EQL {
+				continue
+			}
+			k, isK := constInt(bo.Y)
+			if key, _ := fieldLoadKey(stripConv(bo.X)); !isK || !strings.HasSuffix(key, ".Version") {
+				continue
+			}
+			if b.Succs[0] != arm {
+				continue
+			}
+			wn, known := writers[k]
+			if !known {
+				continue
+			}
+			wp, have := wpos[wn]
+			if !have {
+				r.Undec(rule, fmt.Sprintf("core.Superblock.UpdateEndOfFileAddress#version-%d-patch-position", k), c.Pos(upd.Pos()), "position of the end-of-file field in "+wn+" not recognised")
+				continue
+			}
+			n++
+			r.Check(v == wp, rule, fmt.Sprintf("core.Superblock.UpdateEndOfFileAddress#version-%d-patch-position", k), c.InstrPos(bo), fmt.Sprintf("for version %d the field is patched at byte %d (offset size 8); %s writes it at byte %d", k, v, wn, wp))
+		}
+	}
+	if n < 2 {
+		r.Shortfall(c, rule, fmt.Sprintf("%s: only %d version arms compared", rule, n))
+	}
+}
+
+func init() {
+	txt := "the end-of-file address is patched where it was written: for every superblock version the position UpdateEndOfFileAddress computes (with the 8-byte offsets the writers produce) is the position at which that version's writer stores its end-of-file parameter (24 + o instead of 24 + 2o puts the new end of file into the free-space address of a version 0 superblock and leaves the real field stale)"
+	registry["C10"].Meta.Rules["C10.15"] = txt
+	registry["C10"].Rules = append(registry["C10"].Rules, func(c *Ctx, r *Result) { eofPatchPositionRule(c, r, "C10.15") })
+	registry["C05"].Meta.Rules["C05.17"] = txt + " (shared with C10.15)"
+	registry["C05"].Rules = append(registry["C05"].Rules, func(c *Ctx, r *Result) { eofPatchPositionRule(c, r, "C05.17") })
+
+	registry["C10"].Meta.Rules["C10.14"] = "a reopened dataset writes its elements where the layout message says they are: the dataAddress of the handle OpenDataset builds is read from the parsed data layout message (DataAddress), not from the object header's own address (a Write through the reopened handle would land on the dataset's header)"
+	registry["C10"].Rules = append(registry["C10"].Rules, func(c *Ctx, r *Result) {
+		n := 0
+		for _, fn := range c.LibFuncs() {
+			if shortPkg(fnPkgPath(fn)) != "hdf5" {
+				continue
+			}
+			parses := false
+			for _, site := range callsIn(fn) {
+				if c.calleeName(site) == "core.ParseDataLayoutMessage" {
+					parses = true
+				}
+			}
+			if !parses {
+				continue
+			}
+			for _, fs := range c.DirectFieldStores(fn) {
+				if fs.Fn != fn || fs.Key != "hdf5.DatasetWriter.dataAddress" || fs.Val == nil {
+					continue
+				}
+				n++
+				r.Check(valueReadsField(fs.Val, "core.DataLayoutMessage.DataAddress", 0), "C10.14", c.Name(fn)+"#data-address-from-the-layout-message", c.InstrPos(fs.In), "dataAddress is taken from the layout message the function parsed")
+			}
+		}
+		if n == 0 {
+			r.Shortfall(c, "C10.14", "C10.14: no function that parses a layout message and builds a DatasetWriter")
+		}
+	})
+}
